@@ -11,6 +11,7 @@ import (
 type modSet struct {
 	objs   map[types.Object]bool
 	ghosts map[string]bool
+	direct map[types.Object]bool // the variable itself is assigned (not just something reachable from it)
 }
 
 func (fv *FV) rootObj(e ast.Expr) types.Object {
@@ -53,10 +54,13 @@ func (fv *FV) rootObj(e ast.Expr) types.Object {
 }
 
 func (fv *FV) modifiedIn(nodes ...ast.Node) *modSet {
-	ms := &modSet{objs: map[types.Object]bool{}, ghosts: map[string]bool{}}
+	ms := &modSet{objs: map[types.Object]bool{}, ghosts: map[string]bool{}, direct: map[types.Object]bool{}}
 	add := func(e ast.Expr) {
 		if o := fv.rootObj(e); o != nil {
 			ms.objs[o] = true
+			if _, isID := stripParens(e).(*ast.Ident); isID {
+				ms.direct[o] = true
+			}
 		}
 	}
 	for _, n := range nodes {
@@ -135,6 +139,9 @@ func (fv *FV) callMods(call *ast.CallExpr, ms *modSet) {
 		sub := fv.modifiedIn(f.Body)
 		for o := range sub.objs {
 			ms.objs[o] = true
+		}
+		for o := range sub.direct {
+			ms.direct[o] = true
 		}
 		for g := range sub.ghosts {
 			ms.ghosts[g] = true
@@ -216,6 +223,10 @@ func (fv *FV) havoc(st *State, ms *modSet) {
 		}
 		nv := fv.fresh(root.Name(), cur.Sort)
 		st.vars[root] = nv
+		if cur.Sort.Kind == KPtr && (ms.direct == nil || !ms.direct[root]) {
+			// only the pointee is modified: the pointer keeps its nil-ness
+			st.assume(tEq(tEq(nv, ptrNil(cur.Sort)), tEq(cur, ptrNil(cur.Sort))))
+		}
 		if isUnsigned(root.Type()) {
 			st.assume(T(sx(">=", nv.S, "0"), SBool))
 		}
